@@ -187,6 +187,16 @@ class AbsWalk:
         ws = list(writes(x))
         if isinstance(x, dict) and x.get("k") == "decl":
             ws = [w_ for w_ in ws if w_[1] != "decl"] + [w_ for w_ in ws if w_[1] == "decl"]
+        elif len(ws) > 1:
+            # `res = (*iter)++`: the increment nested in the right-hand side happens first, eval_in() reads the operand off the post-state
+            inner = set()
+            for l_, k_, n_ in ws:
+                if k_ in ("assign", "compound") and isinstance(n_.get("r"), dict):
+                    for q in walk(n_["r"]):
+                        if q.get("k") == "un" and q.get("op") in ("post++", "post--", "pre++", "pre--"):
+                            inner.add(id(q))
+            if inner:
+                ws = [w_ for w_ in ws if w_[1] == "incdec" and id(w_[2]) in inner] + [w_ for w_ in ws if not (w_[1] == "incdec" and id(w_[2]) in inner)]
         for l, kind, n in ws:
             t = lv(l)
             hit = [k for k in list(store) if k == t or k.startswith(t + ".") or k.startswith(t + "->") or k.startswith(t + "[")]
